@@ -61,14 +61,14 @@ CURATED = {
     },
     "direct_model": { "DataMixin._set_data": ("C10",), "DirectModel.simulate_data": ("C10",),
         MODULE_BODY: ("C10",),
-        "call_kernel": ("C01", "C05", "C06", "C07", "C08", "C09", "C10", "C14", "C16",), "call_Fq": ("C07", "C09", "C11", "C14", "C16",), "get_mesh": ("C01", "C02", "C05", "C06", "C07", "C08", "C09", "C10", "C11", "C14", "C16",), "_pop_par_weights": ("C01", "C02", "C05", "C06", "C07", "C08", "C10", "C11", "C14", "C16",),
+        "call_kernel": ("C01", "C05", "C06", "C07", "C08", "C09", "C10", "C14", "C16",), "call_Fq": ("C07", "C09", "C11", "C14", "C16",), "get_mesh": ("C01", "C02", "C05", "C06", "C07", "C08", "C09", "C10", "C11", "C14", "C16",), "_pop_par_weights": ("C01", "C02", "C05", "C06", "C07", "C08", "C09", "C10", "C11", "C14", "C16",),
         "_make_sesans_transform": ("C19",), "DataMixin._interpret_data": ("C03", "C04", "C10", "C11", "C19",), "DataMixin._calc_theory": ("C03", "C07", "C10", "C11", "C19",),
         "DirectModel.__init__": ("C10", "C19",), "DirectModel.__call__": ("C01", "C10", "C19",), "_direct_calculate": ("C10", "C19",), "Iq": ("C10",), "Iqxy": ("C10",),
         "Gxi": ("C10", "C19"),
     },
     "details": { "CallDetails.pd_par": ("C01",), "CallDetails.pd_length": ("C01",), "CallDetails.pd_offset": ("C01",), "CallDetails.pd_stride": ("C01",), "CallDetails.num_eval": ("C01",), "CallDetails.num_weights": ("C01",), "CallDetails.num_active": ("C01",), "CallDetails.theta_par": ("C01", "C05",),
         MODULE_BODY: ("C01",),
-        "CallDetails.__init__": ("C01", "C05", "C06", "C07",), "make_details": ("C01", "C05", "C06", "C07", "C08", "C09", "C14",), "make_kernel_args": ("C01", "C05", "C06", "C07", "C08", "C09", "C10", "C11", "C14", "C16",),
+        "CallDetails.__init__": ("C01", "C05", "C06", "C07", "C08", "C09", "C14",), "make_details": ("C01", "C05", "C06", "C07", "C08", "C09", "C14",), "make_kernel_args": ("C01", "C05", "C06", "C07", "C08", "C09", "C10", "C11", "C14", "C16",),
         "correct_theta_weights": ("C01", "C05",), "convert_magnetism": ("C06", "C08",), "dispersion_mesh": ("C01", "C10"),
     },
     "kerneldll": { "DllKernel.release": ("C11",), "DllModel.release": ("C11", "C18",), "DllModel.__getstate__": ("C11",), "DllModel.__setstate__": ("C11",),
@@ -105,9 +105,9 @@ CURATED = {
         "make_source": ("C09", "C16", "C17"), "load_template": ("C17",), "model_sources": ("C17",), "_add_source": ("C17",), "kernel_name": ("C17",),
     },
     "modelinfo": { "Parameter.__init__": ("C09", "C20",), "Parameter.as_definition": ("C09", "C16",), "Parameter.as_function_argument": ("C09", "C16",), "ParameterTable._get_ref": ("C01", "C09",), "ParameterTable.user_parameters": ("C10",), "ParameterTable.set_zero_background": ("C07", "C08",), "expand_pars": ("C09", "C10",), "prefix_parameter": ("C08",), "suffix_parameter": ("C07", "C08",), "ModelInfo.get_hidden_parameters": ("C10",), "ParameterTable.__getitem__": ("C09",), "ParameterTable.__contains__": ("C09",),
-        "make_parameter_table": ("C09", "C16",), "parse_parameter": ("C09", "C16", "C20",), "ParameterTable.__init__": ("C01", "C05", "C06", "C07", "C08", "C09", "C10", "C16",), "ParameterTable.check_angles": ("C05", "C09",),
-        "ParameterTable.check_duplicates": ("C09",), "ParameterTable._set_vector_lengths": ("C01", "C09",), "ParameterTable._get_call_parameters": ("C01", "C06", "C07", "C08", "C09", "C16",),
-        "ParameterTable._get_defaults": ("C10",), "make_model_info": ("C09", "C16",), "derive_table": ("C16",), "_insert_after": ("C16",), "_simple_insert": ("C16",),
+        "make_parameter_table": ("C09", "C16", "C20",), "parse_parameter": ("C09", "C16", "C20",), "ParameterTable.__init__": ("C01", "C05", "C06", "C07", "C08", "C09", "C10", "C16", "C20",), "ParameterTable.check_angles": ("C05", "C09",),
+        "ParameterTable.check_duplicates": ("C09",), "ParameterTable._set_vector_lengths": ("C01", "C07", "C08", "C09", "C20",), "ParameterTable._get_call_parameters": ("C01", "C06", "C07", "C08", "C09", "C16", "C20",),
+        "ParameterTable._get_defaults": ("C07", "C08", "C09", "C10",), "make_model_info": ("C09", "C16", "C20",), "derive_table": ("C16",), "_insert_after": ("C16",), "_simple_insert": ("C16",),
     },
     "convert": {
         MODULE_BODY: ("C20",),
@@ -617,7 +617,9 @@ EXTRA_EDGES = {
     "kerneldll:load_dll": ["kerneldll:make_dll", "kerneldll:DllModel.__init__", "kerneldll:DllModel._load_dll"],
 }
 # names too generic to follow by name alone (they would connect everything to everything)
-GENERIC = {"get", "pop", "append", "extend", "update", "copy", "items", "keys", "values", "join", "split", "format", "sort", "insert", "index",
+GENERIC = {"Iqxy", "Gxi", "Iqac", "Iqabc", "form_volume", "shell_volume", "radius_effective", "profile", "random", "theory", "update",
+           "residuals", "numpoints", "resolution", "state", "save", "simulate_data", "nllf", "__call__", "clone", "get_weights",
+           "get", "pop", "append", "extend", "update", "copy", "items", "keys", "values", "join", "split", "format", "sort", "insert", "index",
            "__init__", "run", "release", "apply", "Iq", "Fq", "make_kernel", "main", "demo", "plot", "show", "read", "write", "close", "add",
            "lower", "upper", "strip", "replace", "search", "match", "sub", "group", "parameters", "name", "type", "info", "load", "save"}
 
